@@ -37,7 +37,14 @@ fn create_file(dir_path: &Path, file_number: &FileNumber) -> io::Result<File> {
         .create_new(true)
         .write(true)
         .open(new_filepath)?;
+    #[cfg(mrecordlog_verif)]
+    crate::verif_hooks::record(crate::verif_hooks::Event::Create(file_number.file_number()));
     file.set_len(FILE_NUM_BYTES as u64)?;
+    #[cfg(mrecordlog_verif)]
+    crate::verif_hooks::record(crate::verif_hooks::Event::SetLen(
+        file_number.file_number(),
+        FILE_NUM_BYTES as u64,
+    ));
     file.seek(SeekFrom::Start(0))?;
     Ok(file)
 }
@@ -46,6 +53,11 @@ impl Directory {
     /// Open a `Directory`, or create a new, empty, one. `dir_path` must exist and be a directory.
     pub fn open(dir_path: &Path) -> io::Result<Directory> {
         let mut file_numbers: Vec<u64> = Default::default();
+        #[cfg(mrecordlog_verif)]
+        {
+            crate::verif_hooks::record(crate::verif_hooks::Event::ListDir);
+            crate::verif_hooks::io_call()?;
+        }
         for dir_entry_res in std::fs::read_dir(dir_path)? {
             let dir_entry = dir_entry_res?;
             if !dir_entry.file_type()?.is_file() {
@@ -92,6 +104,8 @@ impl Directory {
             let filepath = filepath(&self.dir, &file);
             info!(file=%filepath.display(), "gc remove file");
             std::fs::remove_file(&filepath)?;
+            #[cfg(mrecordlog_verif)]
+            crate::verif_hooks::record(crate::verif_hooks::Event::Unlink(file.file_number()));
         }
         Ok(())
     }
@@ -99,6 +113,13 @@ impl Directory {
     /// Open the wal file with the provided FileNumber.
     pub fn open_file(&self, file_number: &FileNumber) -> io::Result<File> {
         let filepath = filepath(&self.dir, file_number);
+        #[cfg(mrecordlog_verif)]
+        {
+            crate::verif_hooks::record(crate::verif_hooks::Event::OpenFile(
+                file_number.file_number(),
+            ));
+            crate::verif_hooks::io_call()?;
+        }
         let mut file = OpenOptions::new().read(true).write(true).open(filepath)?;
         file.seek(SeekFrom::Start(0u64))?;
         Ok(file)
@@ -111,6 +132,8 @@ impl Directory {
         open_opts.read(true);
         let fd = open_opts.open(&self.dir)?;
         fd.sync_data()?;
+        #[cfg(mrecordlog_verif)]
+        crate::verif_hooks::record(crate::verif_hooks::Event::FsyncDir);
         Ok(())
     }
 }
@@ -130,6 +153,13 @@ impl RollingReader {
         let first_file = directory.first_file_number().clone();
         let mut file = directory.open_file(&first_file)?;
         let mut block = Box::new([0u8; BLOCK_NUM_BYTES]);
+        #[cfg(mrecordlog_verif)]
+        {
+            crate::verif_hooks::record(crate::verif_hooks::Event::ReadBlock(
+                first_file.file_number(),
+            ));
+            crate::verif_hooks::io_call()?;
+        }
         file.read_exact(&mut *block)?;
         Ok(RollingReader {
             file,
@@ -150,6 +180,11 @@ impl RollingReader {
     pub fn into_writer(mut self) -> io::Result<RollingWriter> {
         let offset = self.block_id * crate::BLOCK_NUM_BYTES;
         self.file.seek(SeekFrom::Start(offset as u64))?;
+        #[cfg(mrecordlog_verif)]
+        crate::verif_hooks::record(crate::verif_hooks::Event::Seek(
+            self.file_number.file_number(),
+            offset as u64,
+        ));
         Ok(RollingWriter {
             file: BufWriter::with_capacity(FRAME_NUM_BYTES, self.file),
             offset,
@@ -169,6 +204,13 @@ fn read_block(file: &mut File, block: &mut [u8; BLOCK_NUM_BYTES]) -> io::Result<
 
 impl BlockRead for RollingReader {
     fn next_block(&mut self) -> io::Result<bool> {
+        #[cfg(mrecordlog_verif)]
+        {
+            crate::verif_hooks::record(crate::verif_hooks::Event::ReadBlock(
+                self.file_number.file_number(),
+            ));
+            crate::verif_hooks::io_call()?;
+        }
         let success = read_block(&mut self.file, &mut self.block)?;
         if success {
             self.block_id += 1;
@@ -184,6 +226,13 @@ impl BlockRead for RollingReader {
 
         loop {
             let mut next_file: File = self.directory.open_file(&next_file_number)?;
+            #[cfg(mrecordlog_verif)]
+            {
+                crate::verif_hooks::record(crate::verif_hooks::Event::ReadBlock(
+                    next_file_number.file_number(),
+                ));
+                crate::verif_hooks::io_call()?;
+            }
             let success = read_block(&mut next_file, &mut self.block)?;
             if success {
                 self.block_id = 0;
@@ -217,6 +266,11 @@ impl RollingWriter {
     /// Move forward of `num_bytes` without actually writing anything.
     pub fn forward(&mut self, num_bytes: usize) -> io::Result<()> {
         self.file.seek(SeekFrom::Current(num_bytes as i64))?;
+        #[cfg(mrecordlog_verif)]
+        crate::verif_hooks::record(crate::verif_hooks::Event::Seek(
+            self.file_number.file_number(),
+            (self.offset + num_bytes) as u64,
+        ));
         self.offset += num_bytes;
         Ok(())
     }
@@ -245,7 +299,13 @@ impl BlockWrite for RollingWriter {
         assert!(buf.len() <= self.num_bytes_remaining_in_block());
         if self.offset + buf.len() > FILE_NUM_BYTES {
             self.file.flush()?;
+            #[cfg(mrecordlog_verif)]
+            crate::verif_hooks::record(crate::verif_hooks::Event::Flush);
             self.file.get_ref().sync_data()?;
+            #[cfg(mrecordlog_verif)]
+            crate::verif_hooks::record(crate::verif_hooks::Event::FsyncFile(
+                self.file_number.file_number(),
+            ));
             self.directory.sync_directory()?;
 
             let (file_number, file) =
@@ -263,6 +323,12 @@ impl BlockWrite for RollingWriter {
             self.offset = 0;
         }
         self.offset += buf.len();
+        #[cfg(mrecordlog_verif)]
+        crate::verif_hooks::record_write(
+            self.file_number.file_number(),
+            (self.offset - buf.len()) as u64,
+            buf,
+        );
         self.file.write_all(buf)?;
         Ok(())
     }
@@ -271,11 +337,19 @@ impl BlockWrite for RollingWriter {
         match persist_action {
             PersistAction::FlushAndFsync => {
                 self.file.flush()?;
+                #[cfg(mrecordlog_verif)]
+                crate::verif_hooks::record(crate::verif_hooks::Event::Flush);
                 self.file.get_ref().sync_data()?;
+                #[cfg(mrecordlog_verif)]
+                crate::verif_hooks::record(crate::verif_hooks::Event::FsyncFile(
+                    self.file_number.file_number(),
+                ));
                 self.directory.sync_directory()
             }
             PersistAction::Flush => {
                 // This will flush the buffer of the BufWriter to the underlying OS.
+                #[cfg(mrecordlog_verif)]
+                crate::verif_hooks::record(crate::verif_hooks::Event::Flush);
                 self.file.flush()
             }
         }
